@@ -336,4 +336,111 @@ theorem beValue_beBytes (w v : Nat) (hw : w = 2 ∨ w = 3 ∨ w = 4) (hv : v ≤
   rcases hw with rfl | rfl | rfl <;>
     simp [beBytes, beValue, List.range_succ, maxValue] at hv ⊢ <;> omega
 
+/-! ### vocabulary of the property statements -/
+
+/-- What `TableData` guarantees for one object by construction (`add_offset` appends `len`
+placeholder bytes at the current end of the buffer and records their position): link widths are
+2, 3 or 4, each link field lies inside the object's bytes, and fields do not overlap. -/
+def ObjWF (o : Obj) : Prop :=
+  (∀ l ∈ o.links, (l.width = 2 ∨ l.width = 3 ∨ l.width = 4) ∧ l.pos + l.width ≤ o.bytes.length) ∧
+  o.links.Pairwise Disjoint
+
+/-- byte `k` of object `o` belongs to none of its link fields -/
+def PlainByte (o : Obj) (k : Nat) : Prop := ∀ l ∈ o.links, ¬ (l.pos ≤ k ∧ k < l.pos + l.width)
+
+/-- the offset a reader finds in the field of link `l` of an object placed at `hd` -/
+def readOffset (out : List Nat) (hd : Nat) (l : Link) : Nat :=
+  beValue ((out.drop (hd + l.pos)).take l.width)
+
+/-- `out` holds at `hd` a copy of `o`: all bytes outside `o`'s own link fields are `o`'s -/
+def CopyAt (out : List Nat) (hd : Nat) (o : Obj) : Prop :=
+  hd + o.bytes.length ≤ out.length ∧
+  ∀ k, k < o.bytes.length → PlainByte o k → out[hd + k]? = o.bytes[k]?
+
+/-- the semantic object a reader sees: bytes (link fields blanked) and the subtrees behind the links -/
+inductive Tree where
+  | node : List Nat → List Tree → Tree
+
+def inSomeField (o : Obj) (k : Nat) : Bool := o.links.any (fun l => decide (l.pos ≤ k) && decide (k < l.pos + l.width))
+
+/-- the first `|o.bytes|` bytes of `bs` with `o`'s link fields blanked -/
+def maskedBytes (o : Obj) (bs : List Nat) : List Nat :=
+  (List.range o.bytes.length).map (fun k => if inSomeField o k then 0 else bs.getD k 0)
+
+/-- unfold the graph from `id` into the tree a reader is meant to see (to depth `fuel`) -/
+def unfold (g : Graph) : Nat → Nat → Tree
+  | 0, _ => Tree.node [] []
+  | fuel + 1, id =>
+    Tree.node (maskedBytes (g.obj id) (g.obj id).bytes) ((g.obj id).links.map (fun l => unfold g fuel l.target))
+
+/-- read the output from `pos` as an object shaped like `id` (lengths and link fields as in `g`),
+following every offset with its width and base (to depth `fuel`) -/
+def readBack (out : List Nat) (g : Graph) : Nat → Nat → Nat → Tree
+  | 0, _, _ => Tree.node [] []
+  | fuel + 1, pos, id =>
+    Tree.node (maskedBytes (g.obj id) (out.drop pos))
+      ((g.obj id).links.map (fun l => readBack out g fuel (pos + l.adj + readOffset out pos l) l.target))
+
+theorem inSomeField_false (o : Obj) (k : Nat) : inSomeField o k = false ↔ PlainByte o k := by
+  unfold inSomeField PlainByte
+  simp only [List.any_eq_false, Bool.and_eq_true, decide_eq_true_eq]
+
+theorem masked_copy (out : List Nat) (hd : Nat) (o : Obj) (h : CopyAt out hd o) :
+    maskedBytes o (out.drop hd) = maskedBytes o o.bytes := by
+  unfold maskedBytes
+  apply List.map_congr_left
+  intro k hk
+  simp only [List.mem_range] at hk
+  cases hf : inSomeField o k with
+  | true => simp
+  | false =>
+    simp only [Bool.false_eq_true, ↓reduceIte]
+    have := h.2 k hk ((inSomeField_false o k).mp hf)
+    simp only [List.getD_eq_getElem?_getD, List.getElem?_drop, this]
+
+/-! ### graph surgery as a simulation -/
+
+/-- the shape of a link as a reader sees it, with the target renamed by `φ` -/
+def linkShape (φ : Nat → Nat) (l : Link) : Nat × Nat × Nat × Nat := (l.pos, l.width, l.adj, φ l.target)
+
+/-- `φ` maps every object of `g'` to an object of `g` with the same bytes and the same links up to `φ` -/
+def Simulates (g' g : Graph) (φ : Nat → Nat) : Prop :=
+  ∀ x, (g'.obj x).bytes = (g.obj (φ x)).bytes ∧
+    (g'.obj x).links.map (linkShape φ) = (g.obj (φ x)).links.map (linkShape id)
+
+theorem inSomeField_congr (o o' : Obj) (φ : Nat → Nat) (h : o'.links.map (linkShape φ) = o.links.map (linkShape id)) (k : Nat) :
+    inSomeField o' k = inSomeField o k := by
+  unfold inSomeField
+  have h2 : o'.links.map (fun l => (l.pos, l.width)) = o.links.map (fun l => (l.pos, l.width)) := by
+    have := congrArg (List.map (fun (s : Nat × Nat × Nat × Nat) => (s.1, s.2.1))) h
+    simpa [linkShape, List.map_map, Function.comp_def] using this
+  have e : ∀ (ls : List Link), ls.any (fun l => decide (l.pos ≤ k) && decide (k < l.pos + l.width)) =
+      (ls.map (fun l => (l.pos, l.width))).any (fun p => decide (p.1 ≤ k) && decide (k < p.1 + p.2)) := by
+    intro ls; simp [List.any_map, Function.comp_def]
+  rw [e, e, h2]
+
+theorem unfold_simulation (g' g : Graph) (φ : Nat → Nat) (h : Simulates g' g φ) (fuel : Nat) (x : Nat) :
+    unfold g' fuel x = unfold g fuel (φ x) := by
+  induction fuel generalizing x with
+  | zero => rfl
+  | succ n ih =>
+    obtain ⟨hb, hl⟩ := h x
+    simp only [unfold]
+    congr 1
+    · unfold maskedBytes
+      rw [hb]
+      apply List.map_congr_left
+      intro k _
+      rw [inSomeField_congr _ _ φ hl k]
+    · have h1 : (g'.obj x).links.map (fun l => unfold g' n l.target)
+          = ((g'.obj x).links.map (linkShape φ)).map (fun s => unfold g n s.2.2.2) := by
+        simp only [List.map_map, Function.comp_def, linkShape]
+        apply List.map_congr_left
+        intro l _
+        exact ih l.target
+      have h2 : (g.obj (φ x)).links.map (fun l => unfold g n l.target)
+          = ((g.obj (φ x)).links.map (linkShape id)).map (fun s => unfold g n s.2.2.2) := by
+        simp only [List.map_map, Function.comp_def, linkShape, id]
+      rw [h1, h2, hl]
+
 end FontVerif.Graph
